@@ -12,14 +12,19 @@ def main():
     ids = R.ALL
     if "--ids" in sys.argv:
         ids = sys.argv[sys.argv.index("--ids") + 1].split(",")
-    src = f"/tmp/wt/{prop}/seeded"
+    base = "/tmp/wt"
+    label = x
+    if "--round2" in sys.argv:
+        base = "/tmp/wt2"
+        label = {"A": "C", "B": "D"}[x]
+    src = f"{base}/{prop}/seeded"
     patch = f"{src}/{x}.patch"
     demo = f"{src}/demo_{x.lower()}.rs"
     assert os.path.exists(patch) and os.path.exists(demo), "deliverables missing"
     R.setup()
     rc, out = R.build()
     assert rc == 0, out
-    meta = {"seeded_id": f"{prop}-{x}", "breaks_property": prop, "source": "independent sub-agent given only the property text and a scratch worktree"}
+    meta = {"seeded_id": f"{prop}-{label}", "breaks_property": prop, "source": "independent sub-agent given only the property text and a scratch worktree"}
     os.makedirs(f"{R.REPO}/tests", exist_ok=True)
     shutil.copy(demo, f"{R.REPO}/tests/seeded_demo.rs")
     rc, out = R.sh("cargo test --offline --test seeded_demo 2>&1 | grep -E '^test result|error' | head -3", cwd=R.REPO)
@@ -48,13 +53,13 @@ def main():
     meta["ran"] = f"scratch worktree of /repo HEAD + `git apply patch.diff`; `cargo test --workspace --no-fail-fast --offline`; demo as tests/seeded_demo.rs with and without the change; `nvh <ID> quick` for {','.join(ids)} with the harness pointed at the scratch worktree"
     notes = open(f"{src}/NOTES.md", encoding="utf-8").read() if os.path.exists(f"{src}/NOTES.md") else ""
     meta["needs_to_manifest"] = ""
-    dst = f"/verif/seeded/{prop}-{x}"
+    dst = f"/verif/seeded/{prop}-{label}"
     os.makedirs(dst, exist_ok=True)
     shutil.copy(patch, f"{dst}/patch.diff")
     shutil.copy(demo, f"{dst}/demo.rs")
     open(f"{dst}/NOTES.agent.md", "w", encoding="utf-8").write(notes)
     json.dump(meta, open(f"{dst}/meta.json", "w"), indent=1, ensure_ascii=False)
     R.revert()
-    print(f"{prop}-{x}: confirmed={meta['confirmed']} caught_by={caught} sigs={ {p: res[p]['signature'] for p in caught} }")
+    print(f"{prop}-{label}: confirmed={meta['confirmed']} caught_by={caught} sigs={ {p: res[p]['signature'] for p in caught} }")
 
 main()
